@@ -235,6 +235,8 @@ class NonBondEngine():
         """
         for mol_idx, molecule in enumerate(molecules):
             for node in molecule.nodes:
+                if (mol_idx, node) not in self.nodes_to_gndx:
+                    continue
                 gndx = self.nodes_to_gndx[(mol_idx, node)]
                 molecule.nodes[node]["position"] = self.positions[gndx]
 
@@ -339,7 +341,7 @@ class NonBondEngine():
         return prob
 
     @classmethod
-    def from_topology(cls, molecules, topology, box):
+    def from_topology(cls, molecules, topology, box, ignore=()):
         """
         Create a class instance from a topology object,
         a list of molecules and a box.
@@ -363,6 +365,10 @@ class NonBondEngine():
         idx = 0
         mol_count = 0
         for molecule in molecules:
+            # ignored molecules keep their index but are not part of the engine
+            if molecule.mol_name in ignore:
+                mol_count += 1
+                continue
             for node in molecule.nodes:
                 if "position" in molecule.nodes[node]:
                     # check if position is inside grid
